@@ -2,6 +2,7 @@ package jsonapi
 
 import (
 	"encoding/json"
+	"errors"
 	"fmt"
 	"reflect"
 	"sort"
@@ -175,6 +176,10 @@ func UnmarshalResource(data []byte, schema *Schema) (Resource, error) {
 				if rel.ToOne {
 					var iden Identifier
 					err = json.Unmarshal(v.Data, &iden)
+					if err == nil && iden.ID != "" && iden.Type != rel.ToType {
+						err = errors.New("identifier is not of the relationship's type")
+					}
+
 					res.Set(rel.FromName, iden.ID)
 				} else {
 					var idens Identifiers
@@ -182,6 +187,9 @@ func UnmarshalResource(data []byte, schema *Schema) (Resource, error) {
 					ids := make([]string, len(idens))
 					for i := range idens {
 						ids[i] = idens[i].ID
+						if err == nil && idens[i].Type != rel.ToType {
+							err = errors.New("identifier is not of the relationship's type")
+						}
 					}
 					res.Set(rel.FromName, ids)
 				}
@@ -265,6 +273,10 @@ func UnmarshalPartialResource(data []byte, schema *Schema) (*SoftResource, error
 				if rel.ToOne {
 					var iden Identifier
 					err = json.Unmarshal(v.Data, &iden)
+					if err == nil && iden.ID != "" && iden.Type != rel.ToType {
+						err = errors.New("identifier is not of the relationship's type")
+					}
+
 					_ = newType.AddRel(rel)
 					res.Set(rel.FromName, iden.ID)
 				} else {
@@ -273,6 +285,9 @@ func UnmarshalPartialResource(data []byte, schema *Schema) (*SoftResource, error
 					ids := make([]string, len(idens))
 					for i := range idens {
 						ids[i] = idens[i].ID
+						if err == nil && idens[i].Type != rel.ToType {
+							err = errors.New("identifier is not of the relationship's type")
+						}
 					}
 					_ = newType.AddRel(rel)
 					res.Set(rel.FromName, ids)
